@@ -51,6 +51,18 @@ def pushdown_predicates(expression: E, dialect: DialectType = None) -> E:
                 selected_sources: Sources = scope.selected_sources
                 join_index = {join.alias_or_name: i for i, join in enumerate(joins)}
 
+                # a full join null-extends everything joined so far, so a WHERE predicate can't be
+                # pushed into the FROM source or into any join up to and including the full join
+                full_join_index = max(
+                    (i for i, join in enumerate(joins) if join.side == "FULL"), default=None
+                )
+                if full_join_index is not None:
+                    selected_sources = {
+                        k: v
+                        for k, v in selected_sources.items()
+                        if join_index.get(k, -1) > full_join_index
+                    }
+
                 # a right join can only push down to itself and not the source FROM table
                 # presto, trino and athena don't support inner joins where the RHS is an UNNEST expression
                 pushdown_allowed = True
